@@ -173,12 +173,13 @@ def markdown_first_line_is_rule(lines: list[str]) -> bool:
     )
 
 
-def markdown_escape_first_word(text: str) -> str:
+def markdown_escape_first_word(text: str, paragraph_start: bool = True) -> str:
     """
     Escape the first word of a paragraph (see `markdown_first_line_is_rule()`). The caller
     wraps the result again, so that the escaped word is laid out with its real width.
+    Also used for the first word after a hard line break (`paragraph_start=False`).
     """
-    if _md_def_label_pat.match(text):
+    if paragraph_start and _md_def_label_pat.match(text):
         return text.replace("[", "\\[", 1)
     match = re.match(r"\s*(\S+)", text)
     if not match:
